@@ -55,13 +55,15 @@ def main():
         feats = "-F svg,image"
     elif "svg" in head:
         feats = "-F svg"
+    rel = " --release" if re.search(r"profile:\s*release", head) else ""
+    meta["demo_profile"] = "release" if rel else "dev"
     os.makedirs(os.path.join(wt, "tests"), exist_ok=True)
     open(os.path.join(wt, "tests/demo.rs"), "w").write(demo)
     def record(step, cmd, ok, tail):
         meta["ran"].append({"step": step, "cmd": cmd, "ok": ok, "tail": tail[-300:]})
         print(f"  [{ 'ok' if ok else 'NO'}] {step}: {cmd}")
     # 1. unchanged
-    cmd = f"cargo test --offline --test demo {feats}"
+    cmd = f"cargo test --offline{rel} --test demo {feats}"
     rc, out = sh(cmd, cwd=wt, env=env)
     demo_pass_clean = rc == 0
     record("demo on unchanged tree must pass", cmd, demo_pass_clean, out)
@@ -78,6 +80,10 @@ def main():
     rc, out = sh("cargo test --offline --lib -F svg,image", cwd=wt, env=env)
     feat_ok = tests_ok(out, 177)
     record("177 feature tests pass with the change", "cargo test --offline --lib -F svg,image", feat_ok, out)
+    if rel:
+        rc, out = sh("cargo test --offline --release --lib", cwd=wt, env=env)
+        base_ok = base_ok and tests_ok(out, 174)
+        record("174 baseline tests pass with the change in the release profile", "cargo test --offline --release --lib", tests_ok(out, 174), out)
     rc, out = sh(cmd, cwd=wt, env=env)
     demo_fail_patched = rc != 0 and ("test result: FAILED" in out or "panicked" in out)
     record("demo with the change must fail", cmd, demo_fail_patched, out)
